@@ -274,6 +274,11 @@ def effect_of(e, prog, roots=(STATE,)):
         if r not in roots:
             return None
         if e.data.get('local'):
+            if e.data.get('inlined'):
+                from analysis.sym import _known_fns
+                kf = _known_fns()
+                if kf and e.data['callee'] not in kf:
+                    return None     # a helper the rules do not know was looked through: its own effects are in the event list
             if local_mut_self(prog, e.data['callee']):
                 return {'place': recv, 'op': nm, 'value': None, 'args': args[1:]}
             return None
